@@ -61,7 +61,7 @@ def run(ctx: Ctx):
     ctx.notes['schedules_from_tlc'] = len(scheds)
     ctx.notes['design_invariants'] = ['Inv_C10', 'Termination']
     quick = ctx.tier == 'quick'
-    n_ds = 16 if quick else 160
+    n_ds = 16 if quick else 96
     hash_seeds = (1, 7) if quick else (1, 2, 3, 5, 7, 11, 13, 17, 19, 23, 29, 31)
     base = ctx.seed * 1_000_003
     seeds = [base + i for i in range(n_ds)]
